@@ -207,6 +207,37 @@ def call(f, *a):
         return ("err", "Other" if (c.startswith("Other") or c == "AttributeError") else c)
 
 
+def _reported_count(obj):
+    import io
+    fp = io.BytesIO()
+    try:
+        return obj.write(fp)
+    except Exception:  # noqa
+        return None
+
+
+def _embedded_roundtrip(obj):
+    """Write `obj` the way TypeToolObjectSetting embeds engine data (a RawData value of a descriptor: a length block
+    sized by the reported count, followed by more data) and read it back. None when it round-trips."""
+    import io
+    from psd_tools.utils import read_length_block, write_length_block
+    fp = io.BytesIO()
+    try:
+        write_length_block(fp, lambda f: obj.write(f))
+        fp.write(b"TRAILER!")
+        fp.seek(0)
+        data = read_length_block(fp)
+        rest = fp.read()
+        back = type(obj).frombytes(data)
+        if rest != b"TRAILER!":
+            return "bytes after the block are misaligned: %r" % rest[:12]
+        if back != obj:
+            return "tree differs after the embedded round trip"
+    except Exception as ex:  # noqa
+        return "raises " + type(ex).__name__
+    return None
+
+
 def model_ans(fields):
     if fields[0] == "ok":
         return ("ok", fields[1] if len(fields) > 1 else "")
@@ -578,6 +609,19 @@ def run(ctx: core.Run):
                              {"tree": jsonable(c), "layout": layout, "impl": list(impl_c), "model": list(mod)})
             if impl[0] == "ok":
                 written.append((layout, impl[1]))
+                # the byte count `write` reports is what the enclosing length blocks are sized by (engine data is
+                # embedded in the type-tool block behind a length prefix): it must equal the bytes emitted
+                cnt = _reported_count(build_py(c, cls))
+                if cnt is not None and cnt != len(impl[1]):
+                    ctx.fail("C18/%s/reported-count-differs-from-bytes-written" % layout,
+                             "write() of engine data reports a byte count different from what it emitted; the embedded "
+                             "length prefix of the type-tool block is then wrong and the layer cannot be re-read",
+                             {"tree": jsonable(c), "layout": layout}, cnt, len(impl[1]))
+                emb = _embedded_roundtrip(build_py(c, cls))
+                if emb is not None:
+                    ctx.fail("C18/%s/embedded-in-length-block-not-reread" % layout,
+                             "engine data written behind a length prefix (as in the type-tool block) is not read back",
+                             {"tree": jsonable(c), "layout": layout}, emb, "the same tree")
             # ---- the property on the real code (oracle: independent canonical walker + Python ==)
             bad = roundtrip_fails(c, layout)
             ctx.hist("roundtrip_" + layout, "ok" if bad is None else "FAIL")
